@@ -35,6 +35,9 @@ func genC15(t *rapid.T) kit.History {
 		if rapid.Bool().Draw(t, l+"_viaChild") {
 			store = "mgrs"
 		}
+		if rapid.IntRange(0, 11).Draw(t, l+"_deleteWhere") == 0 {
+			return kit.Op{Kind: "deletewhere", Store: store, Spec: &kit.EntSpec{Name: c15Universe.Names[rapid.IntRange(0, len(c15Universe.Names)-2).Draw(t, l+"_dwName")]}}
+		}
 		return kit.GenEntOpM(t, l, store, c15Universe, m)
 	})
 }
